@@ -35,7 +35,10 @@ pub fn run(tier: &str) -> i32 {
         if quick {
             v.push((2, 1, 3, 60, None, 1));
             v.push((2, 1, 3, 80, None, 2));
+            v.push((2, 2, 2, 60, None, 3));
         } else {
+            v.push((2, 3, 4, 80, None, 3));
+            v.push((1, 2, 4, 80, Some(2), 3));
             v.push((2, 2, 5, 80, None, 1));
             v.push((1, 1, 5, 80, Some(2), 1));
             v.push((3, 0, 6, 80, None, 1));
@@ -51,6 +54,11 @@ pub fn run(tier: &str) -> i32 {
             pool: match pool_kind {
                 1 => Pool::wide(Network::Regtest, p),
                 2 => Pool::tall(Network::Regtest, p, 6),
+                3 => {
+                    let mut pl = Pool::standard(Network::Regtest, p);
+                    pl.empty_page = true;
+                    pl
+                }
                 _ => Pool::standard(Network::Regtest, p),
             },
             max_deviations: dev,
@@ -63,9 +71,9 @@ pub fn run(tier: &str) -> i32 {
             sync_gate: false,
         };
         let e = explore(&m, &Limits::new(3, if quick { 300 } else { 6000 }));
-        let pool_desc = ["G-P1-P2-P3 + fork F on P1, P2 paginated, two blocks per reply", "G-A1-A2 and G-B1-B2-B3, B2 paginated, one block per reply", "G-T1-...-T6, T2 paginated, one block and at most three announced headers per reply (each reply announces a header no earlier reply announced)"][pool_kind as usize];
+        let pool_desc = ["G-P1-P2-P3 + fork F on P1, P2 paginated, two blocks per reply", "G-A1-A2 and G-B1-B2-B3, B2 paginated, one block per reply", "G-T1-...-T6, T2 paginated, one block and at most three announced headers per reply (each reply announces a header no earlier reply announced)", "as the first, with two coinciding split points: the second page is empty"][pool_kind as usize];
         rep.absorb(
-            &format!("SCHED theta={} follow_ups={} deviations<={} depth<={} hb_budget={:?} pool={}", theta, p, dev, depth, budget, ["standard", "wide", "tall"][pool_kind as usize]),
+            &format!("SCHED theta={} follow_ups={} deviations<={} depth<={} hb_budget={:?} pool={}", theta, p, dev, depth, budget, ["standard", "wide", "tall", "standard with an empty follow-up page"][pool_kind as usize]),
             e,
             json!({"threshold": theta, "follow_up_pages": p, "max_deviations": dev, "max_depth": depth,
                    "heartbeat_ingestion_budget": budget,
